@@ -307,6 +307,9 @@ def _check_own(run):
     # any callable loss is accepted by the constructors (they all go through validate_loss_function)
     from .c06 import depends_on
     depends_on(run, "C13", {"AGREE"}, only=lambda rule, inst: inst.startswith("dispatch"))
+    depends_on(run, "C06", {"MERGE", "VALUE", "COUNT"},
+               only=lambda rule, inst: rule != "MERGE" or inst.endswith("keys-as-keywords"))
+    depends_on(run, "C05", {"TELESCOPE", "AVERAGE"}, only=lambda rule, inst: "accumulate" in inst or "acc-init" in inst or inst.endswith(".result"))   # any mixture of name types reaches the default imputer
     depends_on(run, "C14", {"WIRING", "RIVER"})     # every evaluation the explainer asks for reaches the model (no answer kept from an earlier call)
     n_loss = 0
     for cls in classes:
